@@ -286,6 +286,13 @@ func runCase(c *Case) (*outcome, error) {
 			out.Final = e.Error()
 		}
 		if sc != nil {
+			// every connection is gone and the counter is back to zero: what became of the sockets that were not closed
+			// when a call of Close returned
+			for _, o := range out.Calls {
+				if o.Op == "close" && o.Ret && (o.OpenAt > 0 || o.BusyAt > 0) {
+					o.Linger = cr.lingerOf(o)
+				}
+			}
 			open := cr.tracker.snapshot()
 			r := cr.log.AddRet(out.shutCalls, strings.SplitN(resOf(e), ":", 2)[0])
 			out.Calls = append(out.Calls, &callObs{Op: "shutdown", N: out.shutCalls, CallAt: sc.T, RetAt: r.T, Ret: true, Result: resOf(e),
@@ -540,6 +547,9 @@ func Run(ctx *core.Ctx) {
 		"the listener of these cases wraps every accepted connection and scripts how long the proxy's Close of it takes {returns at once, 50-400 ms, 650-900 ms (longer than Shutdown's longest polling interval)} and, " +
 		"on TLS listeners, peers that do not take their close_notify (the record waits 650-1200 ms below crypto/tls): a nil is judged at the instant of the return — the Close of every served socket has COMPLETED, not merely begun " +
 		"(crossed with plain / TLS / stalled TLS under histories that end in a success for certain; on rig a in the drains of Run that end by themselves, plain listeners); " +
+		"every Close is judged at the instant of ITS return as the clause reads — every accepted socket closed, nothing open, nothing closing — with Close called while handlers tear their connections down " +
+		"({plain, TLS} x {the socket's Close returns at once, takes 650-900 ms, TLS close_notify not taken}; on TLS listeners the known finding F53: crypto/tls answers Proxy.Close's second Close at once, so a socket whose " +
+		"handler is inside tls.Conn.Close outlives Close — excused only when that handler closes it within what the connection's script explains, a VIOLATION in every other configuration); " +
 		"on rig a the drain of Run ended by a second shutdown signal (SIGUSR1 to the child process), by the shutdown timeout, or by itself, with connections that do not drain: " +
 		"after Run returned every accepted socket closed, the listener's active-connections gauge 0, nothing served any more; " +
 		"plus the signal matrix on rigs a and s: configured ShutdownSignals {none, {SIGUSR1}, {SIGUSR1, SIGUSR2}} x signals delivered to the hosting process during the drain " +
@@ -628,6 +638,11 @@ func Run(ctx *core.Ctx) {
 	for j := 0; j < ctx.N(9, 162); j++ {
 		send("ctl", genCtlClose(ctx.Rng.Sub(), j))
 	}
+	// Close called while handlers tear their connections down (ctl.go genCtlCloseDuring; drawn after everything else):
+	// {plain, TLS} x {the teardown returns at once, takes 650-900 ms, TLS close_notify not taken}; F53 on the TLS listeners
+	for j := 0; j < ctx.N(6, 108); j++ {
+		send("ctl", genCtlCloseDuring(ctx.Rng.Sub(), j))
+	}
 	for _, c := range micro {
 		send("micro", c)
 	}
@@ -660,6 +675,7 @@ func runAndEvaluate(ctx *core.Ctx, c *Case, ch *child) *child {
 			ls = append(ls, l)
 		}
 		ctx.Count("ctl/history/" + strings.Join(ls, ","))
+		ctx.Count("ctl/" + c.closeLabel())
 	}
 	nontrivial := false
 	for _, s := range c.Conns {
